@@ -326,7 +326,8 @@ class Spelling(Family):
                 # a sibling change that declares nothing (the main encoding is back in force), then one under the spelling
                 # again: the newline bytes are those of the codec in force for each section, whatever was written before
                 ['new_change', None],
-                ['write_preamble', sl.S(text), None, {'i': 2}, None, None],
+                # declared dos while the text's own lines end in LF: one CRLF-terminated line, the CRLF is appended
+                ['write_preamble', sl.S(text), None, {'i': 2}, sl.S('dos'), None],
                 ['write_meta', {'d': {'k': 'w'}}, None, 'omitted'],
                 ['new_file', sl.S(s)],
                 ['write_meta', {'d': {'k': 'x'}}, None, 'omitted'],
